@@ -129,10 +129,9 @@ func hasBad(t Tree) bool {
 	if t["op"] == "BAD" || t["ty"] == "other" {
 		return true
 	}
-	// values on which serialize() itself fails or quotes (empty / double-quoted column names, single quotes) are
-	// C02's subject, not the fold discipline
+	// column names on which serialize() itself fails (empty, or holding a double quote) are C02's subject, not the fold discipline
 	if v, ok := t["v"].(string); ok {
-		if strings.ContainsAny(v, "'\"") || (t["ty"] == "col" && v == "") {
+		if t["ty"] == "col" && (v == "" || strings.Contains(v, "\"")) {
 			return true
 		}
 	}
